@@ -1,4 +1,5 @@
 """C05 — each design is evaluated exactly once and stored costs belong to its vector."""
+import collections
 import math
 
 import numpy as np
@@ -24,6 +25,8 @@ SCIPY = ["Nelder-Mead", "Powell", "COBYLA", "L-BFGS-B", "BFGS", "CG", "TNC", "SL
 def cases(ctx):
     for i in range(ctx.pick(500, 100000)):
         yield "batch", {"seed": ctx.subseed("b", i)}
+    for i in range(ctx.pick(60, 6000)):
+        yield "growing_batch", {"seed": ctx.subseed("gb", i)}
     for i in range(ctx.pick(120, 20000)):
         yield "sweep", {"seed": ctx.subseed("s", i), "gen": ["custom", "random", "lhs", "halton", "uniform", "fullfact", "pb", "bb"][i % 8]}
     for i in range(ctx.pick(48, 6400)):
@@ -227,6 +230,41 @@ def run_case(ctx, name, params):
                 S.shutdown()
                 ctx.count("scheduler_grants", S.grants)
         return
+    elif name == "growing_batch":
+        # an objective that refines adaptively: while a (serial) batch is being evaluated it appends further designs to that very
+        # batch; "a batch" is what the list holds when evaluate() returns -- every member evaluated, each exactly once
+        n = r.randint(1, 3)
+        m = r.randint(1, 2)
+        fn = objective(r, m)
+        batch = []
+        budget = [r.randint(1, 4)]
+
+        def on_call(vec):
+            if budget[0] > 0 and r.random() < 0.5:
+                budget[0] -= 1
+                batch.append(Individual([r.uniform(-1, 1) for _ in range(n)]))
+        p = hooks.make_problem(n=n, m=m, fn=fn, bounds=[[-1.0, 1.0]] * n, on_call=on_call)
+        alg = DummyAlgorithm(p)
+        for _ in range(r.randint(1, 6)):
+            batch.append(Individual([r.uniform(-1, 1) for _ in range(n)]))
+        first = len(batch)
+        try:
+            alg.evaluate(batch)
+        except Exception as e:
+            ctx.violation("batch/exception", "Algorithm.evaluate raised %r for a batch that grows during evaluation" % e, {"size": first})
+            return
+        ctx.count("growing_batches")
+        by_id = collections.Counter(c.ind_id for c in p.calls)
+        wit = lambda: {"designs_at_start": first, "designs_at_end": len(batch), "objective_calls": len(p.calls),
+                       "states": [str(b.state) for b in batch]}
+        for b in batch:
+            if b.state != Individual.State.EVALUATED or by_id.get(b.id, 0) != 1 or [float(v) for v in b.costs] != [float(v) for v in fn(b.vector)]:
+                ctx.violation("calls/growing_batch", "a design appended to the batch while it was being evaluated was not evaluated exactly once "
+                              "(or carries foreign costs)", wit())
+                return
+        if len(batch) > first:
+            ctx.nontrivial(("gb", params["seed"]))
+        ctx.count("cases")
     elif name == "sweep":
         from artap import operators
         from artap.algorithm_sweep import SweepAlgorithm
